@@ -1,4 +1,5 @@
 import Physt.Proofs.ArrayLaws
+import Mathlib.Tactic.Linarith
 /-!
 # C11 (continued) — per-axis integer and slice selection of N-d arrays
 
@@ -27,6 +28,54 @@ theorem C11_slice_sum (a : Arr) (axis lo hi : Nat) (js : List Nat) (hax : axis <
     ((a.selectSlice axis lo hi).sumAxis axis).get js
       = ((List.range (hi - lo)).map fun k => a.get (insAt js axis (lo + k))).sum :=
   Arr.get_sumAxis_selectSlice a axis lo hi js hax hv
+
+/-- **`h[..., i, ...]` on a histogram**: an integer index (negative counted from the end) inside the
+    range drops the axis with its bins and its name, and contents / squared errors are those selected
+    entries; an index outside `[-n, n)` is refused. -/
+theorem C11_nd_int (h : HN) (axis : Nat) (i : Int) :
+    let n : Int := ((h.freq.shape[axis]?.getD 0 : Nat) : Int)
+    let k : Int := if i < 0 then i + n else i
+    (0 ≤ k ∧ k < n → h.selectInt axis i = .ok
+        { h with axes := h.axes.eraseIdx axis, names := h.names.eraseIdx axis,
+                 freq := h.freq.selectInt axis k.toNat, err2 := h.err2.selectInt axis k.toNat,
+                 missed := some 0, keep := true }) ∧
+    (¬ (0 ≤ k ∧ k < n) → ∃ e, h.selectInt axis i = .error e) := by
+  intro n k
+  constructor
+  · intro hk
+    have hneg : ¬ (k < 0 ∨ k ≥ n) := by omega
+    unfold HN.selectInt
+    simp only [bind, Except.bind, pure, Except.pure]
+    have : ¬ ((if i < 0 then i + ((h.freq.shape[axis]?.getD 0 : Nat) : Int) else i) < 0 ∨
+        (if i < 0 then i + ((h.freq.shape[axis]?.getD 0 : Nat) : Int) else i) ≥ ((h.freq.shape[axis]?.getD 0 : Nat) : Int)) := hneg
+    simp only [this, if_false]
+    rfl
+  · intro hk
+    have hpos : k < 0 ∨ k ≥ n := by omega
+    unfold HN.selectInt
+    have : ((if i < 0 then i + ((h.freq.shape[axis]?.getD 0 : Nat) : Int) else i) < 0 ∨
+        (if i < 0 then i + ((h.freq.shape[axis]?.getD 0 : Nat) : Int) else i) ≥ ((h.freq.shape[axis]?.getD 0 : Nat) : Int)) := hpos
+    simp only [bind, Except.bind, this, if_true, throw, throwThe, MonadExceptOf.throw]
+    exact ⟨_, rfl⟩
+
+/-- **`h[..., a:b, ...]` on a histogram**: the bins of the sliced axis are the list slice of its bins
+    (Python bounds), the other axes, the names, missed and dtype are untouched, contents and squared
+    errors are the sliced arrays. -/
+theorem C11_nd_slice (fo : FloatOps) (h : HN) (axis : Nat) (start stop : Option Int) (bn : Binning)
+    (hbn : h.axes[axis]? = some bn) :
+    let n := h.freq.shape[axis]?.getD 0
+    let a := (H1.sliceBounds n start stop).1
+    let b := if (H1.sliceBounds n start stop).2 < a then a else (H1.sliceBounds n start stop).2
+    (h.selectSlice fo axis start stop).axes = h.axes.set axis (.static (pySlice (bn.bins fo) a b) bn.ire) ∧
+    (h.selectSlice fo axis start stop).names = h.names ∧
+    (h.selectSlice fo axis start stop).missed = h.missed ∧
+    (h.selectSlice fo axis start stop).dtype = h.dtype ∧
+    (h.selectSlice fo axis start stop).freq = h.freq.selectSlice axis a b ∧
+    (h.selectSlice fo axis start stop).err2 = h.err2.selectSlice axis a b := by
+  intro n a b
+  unfold HN.selectSlice
+  simp only [hbn]
+  refine ⟨?_, ?_, ?_, ?_, ?_, ?_⟩ <;> trivial
 
 example : ((({ shape := [2, 3], data := [1, 2, 3, 4, 5, 6] } : Arr).selectInt 0 1).data = [4, 5, 6]) ∧
     ((({ shape := [2, 3], data := [1, 2, 3, 4, 5, 6] } : Arr).selectSlice 1 1 3).data = [2, 3, 5, 6]) := by decide +kernel
